@@ -4,6 +4,7 @@ import (
 	"encoding/json"
 	"flag"
 	"fmt"
+	"math/rand"
 	"os"
 	"path/filepath"
 	"sort"
@@ -301,6 +302,13 @@ func runShard(P *Program, cfg *RunCfg, shard int, replayTrace []Decision, concMo
 	}
 	ex := NewExplorer(vm, cfg)
 	ex.shard = shard
+	if cfg.DiffOnly && replayTrace == nil {
+		// one concrete run on a seeded random input vector; the comparison with the native build happens in diffValidate
+		ex.replay = true
+		ex.random = rand.New(rand.NewSource(4711))
+		ex.concModel = map[string]uint64{}
+		ex.trace = nil
+	}
 	if replayTrace != nil {
 		ex.trace = replayTrace
 		ex.replay = true
@@ -410,6 +418,7 @@ func cmdCheck(args []string) int {
 			if *tier == "thorough" {
 				n = 30
 			}
+			_ = n
 			var derr error
 			validated, mismatches, derr = diffValidate(P, seqCfgs, n, int64(seed)+1)
 			if derr != nil {
